@@ -23,6 +23,7 @@ type Object struct {
 	val  Value
 	typ  types.Type // element type held
 	name string
+	born *Term // path condition under which the object was allocated
 }
 
 type PtrAlt struct {
